@@ -126,6 +126,11 @@ func encodedLen(e *evaluator, v ssa.Value) *term {
 		return t
 	case *ssa.Call:
 		// a helper of package encode that builds and returns the buffer: its own result length
+		if h := calleeOf(x); h != nil && pkgPathOf(h) == encPath {
+			if kind, _, si := leLoopKind(e.p, h); kind == "put" && si < len(x.Call.Args) {
+				return e.eval(x.Call.Args[si]) // putLE(v, size) returns exactly size bytes
+			}
+		}
 		if h := calleeOf(x); h != nil && pkgPathOf(h) == encPath && len(h.Blocks) > 0 && !hasLoop(h) {
 			if rets := returnsOf(h); len(rets) == 1 && len(rets[0].Results) >= 1 {
 				return encodedLen(e, rets[0].Results[0])
@@ -265,6 +270,27 @@ func checkC15(p *Program, r *Report) {
 			lenT := strings.TrimPrefix(gsT[0], "add(2,")
 			lenT = strings.TrimSuffix(lenT, ")")
 			okH := hdr["0"] == "conv:byte(shr:s("+lenT+",8))" && hdr["1"] == "conv:byte("+lenT+")"
+			if !okH && len(hdr) == 0 {
+				// the same header through the library: binary.BigEndian.PutUint16(buf, uint16(len))
+				for _, c := range callsIn(enc) {
+					call, ok := c.(*ssa.Call)
+					if !ok || funcID(calleeOf(call)) != "(encoding/binary.bigEndian).PutUint16" || len(call.Call.Args) != 3 {
+						continue
+					}
+					onResult := false
+					for _, ret := range returnsOf(enc) {
+						if len(ret.Results) == 1 && ret.Results[0] == call.Call.Args[1] {
+							onResult = true
+						}
+					}
+					got := e.eval(call.Call.Args[2]).String()
+					if onResult && got == "conv:uint16("+lenT+")" {
+						okH = true
+					} else {
+						hdr["PutUint16"] = got
+					}
+				}
+			}
 			r.Check(okH, "encode.String16 header written", p.Pos(enc.Pos()), "b[0]=byte(len>>8), b[1]=byte(len)", fmt.Sprintf("header stores %v, want b[0]=byte(len>>8) b[1]=byte(len) of %s", hdr, lenT))
 			// decoded string is b[2:2+l]
 			okS := len(decT) == 2 && decT[1] == "convert:string(slice(b,2,"+wantDec+"))"
@@ -402,6 +428,58 @@ func fixedIntBijection(p *Program, enc, dec *ssa.Function, T types.Type) string 
 			}
 		}
 		if put == nil {
+			// a hand-written little-endian shift loop (see leloop.go): putLE(conv(value), size) with
+			// size = Sizeof(T); conversions on the way may widen but never go below the width of T
+			for _, c := range callsIn(enc) {
+				call, ok := c.(*ssa.Call)
+				if !ok {
+					continue
+				}
+				h := calleeOf(call)
+				if h == nil || pkgPathOf(h) != encPath {
+					continue
+				}
+				kind, vi, si := leLoopKind(p, h)
+				if kind != "put" {
+					continue
+				}
+				if k, isK := constInt(call.Call.Args[si]); !isK || k != w {
+					return fmt.Sprintf("Encode writes %v bytes with %s, want %d", call.Call.Args[si], shortFn(h), w)
+				}
+				root, min := convChainMin(call.Call.Args[vi])
+				if root != assert {
+					return "the value written is not the asserted argument"
+				}
+				if min < w {
+					return "Encode: a conversion narrows the value below the width of " + T.String()
+				}
+				// Decode: getLE(b, size) narrowed to T
+				for _, ret := range returnsOf(dec) {
+					if len(ret.Results) != 2 {
+						return "Decode does not return (int, interface{})"
+					}
+					mi, ok := ret.Results[1].(*ssa.MakeInterface)
+					if !ok || !types.Identical(mi.X.Type(), T) {
+						return "Decode does not box a " + T.String()
+					}
+					r2, min2 := convChainMin(mi.X)
+					gc, ok := r2.(*ssa.Call)
+					if !ok {
+						return "Decode does not read with the little-endian helper"
+					}
+					gk, _, gsi := leLoopKind(p, calleeOf(gc))
+					if gk != "get" {
+						return "Decode reads with " + funcID(calleeOf(gc)) + ", want the little-endian loop helper"
+					}
+					if k, isK := constInt(gc.Call.Args[gsi]); !isK || k != w {
+						return fmt.Sprintf("Decode reads a different number of bytes than Encode writes (%d)", w)
+					}
+					if min2 < w {
+						return "Decode: a conversion narrows the value below the width of " + T.String()
+					}
+				}
+				return ""
+			}
 			return "Encode does not call binary PutUintN / AppendUintN"
 		}
 		if !isLittleEndianCall(put, "PutUint"+n) && !isLittleEndianCall(put, "AppendUint"+n) {
